@@ -304,7 +304,7 @@ class Sim:
             else:
                 self.lin = UNSPEC if self.lin is not None or res[0] == "ok" else None
             return
-        # predict
+        # predict / transform
         if fired:
             self.prev_pred_fault = True
             return
@@ -313,7 +313,10 @@ class Sim:
         if not isinstance(self.lin, list) or self.needs_fit or self.uspec_at_fit is None:
             ev["cmp"] = "skip"
             return
-        self.compare_predict(arg, res, ev, i, fkind)
+        if op == "transform":
+            self.compare_transform(arg, ds_id, res, ev, i, fkind)
+        else:
+            self.compare_predict(arg, res, ev, i, fkind)
 
     def check_isolation(self, before, op, i, fkind):
         self.stats["isolation_checks"] += 1
@@ -386,6 +389,44 @@ class Sim:
             self.probe("compared_on_update_lineage")
         if must:
             self.probe("nonempty_expected")
+
+    def compare_transform(self, arg, ds_id, res, ev, i, fkind):
+        """Dense entry point, judged only for data with the default 0..n-1 index (the
+        behaviour for other indices is C05's subject): row i carries the number (1, 2,
+        ... in order) of the flagged segment covering it, 0 elsewhere — so two adjacent
+        flagged segments keep different labels."""
+        spec = self.ds_spec.get(ds_id) if ds_id is not None else None
+        if spec is None or spec["index"]["kind"] != "range" or spec["index"]["start"] != 0 or res[0] != "ok":
+            ev["cmp"] = "skip"
+            return
+        try:
+            fresh = core.build(json.loads(self.uspec_at_fit))
+        except Exception:  # noqa: BLE001
+            return
+        if call(fresh, "fit", concat_lineage([c for c, _ in self.lin]))[0] != "ok":
+            return
+        rp = call(fresh, "predict", arg)
+        if rp[0] != "ok":
+            return
+        p = self.A.get_params(deep=False)
+        x = first_column_values(arg).astype(float)
+        must, may = expected_anomalies([int(v) for v in rp[2]["ilocs"]], x, p["stat"], p["stat_lower"], p["stat_upper"])
+        if may:
+            return
+        want = np.zeros(len(x), dtype=int)
+        for k, (s_, e_) in enumerate(sorted(must)):
+            want[s_:e_] = k + 1
+        try:
+            got = np.asarray(res[2]["labels"]).astype(int)
+        except Exception as e:  # noqa: BLE001
+            self.violate("anomalies_mismatch", "A_transform", i, fkind, {"why": f"dense output has no 'labels' column: {type(e).__name__}"})
+            return
+        self.stats["comparisons"] += 1
+        self.probe("transform_judged")
+        ev["cmp"] = "eq"
+        if got.shape != want.shape or not np.array_equal(got, want):
+            ev["cmp"] = "NE"
+            self.violate("anomalies_mismatch", "A_transform", i, fkind, {"expected_labels": want.tolist(), "got_labels": got.tolist(), "expected_segments": must})
 
     @staticmethod
     def has_nan(a):
@@ -501,7 +542,7 @@ def gen_step(rng, sim, cfg, datasets):
     bad = [d["id"] for d in datasets if d.get("bad")]
     fitted = isinstance(sim.lin, list)
     if fitted and not sim.needs_fit:
-        ops = [("A_predict", 40), ("A_fit", 10), ("A_update", 7), ("U_fit", 12), ("U_predict", 12), ("U_set_params", 5), ("A_set_params", 4), ("A_clone", 1)]
+        ops = [("A_predict", 34), ("A_transform", 8), ("A_fit", 10), ("A_update", 7), ("U_fit", 12), ("U_predict", 12), ("U_set_params", 5), ("A_set_params", 4), ("A_clone", 1)]
     else:
         ops = [("A_fit", 50), ("A_predict", 8), ("U_fit", 12), ("U_predict", 10), ("U_set_params", 6), ("A_set_params", 5), ("A_update", 2)]
     if rng.random() < 0.04:
@@ -606,7 +647,7 @@ def extra_checks(seed, tier, args):
                             "datasets": [ds],
                             "U": {"__cls__": "ScriptedDetector", "params": {"cpts": {"__tuple__": list(cp)}}},
                             "A": {"__cls__": "StatThresholdAnomaliser", "params": {"change_detector": {"__ref__": "U"}, "stat": {"__fn__": stat}, "stat_lower": lo, "stat_upper": hi}},
-                            "steps": [{"op": "A_fit", "d": 0}, {"op": "A_predict", "d": 0}],
+                            "steps": [{"op": "A_fit", "d": 0}, {"op": "A_predict", "d": 0}, {"op": "A_transform", "d": 0}],
                         }
                         res = replay(trace)
                         total += 1
@@ -614,7 +655,7 @@ def extra_checks(seed, tier, args):
                             out = _result_slim(res)
                             results.append(out)
                             return results, {"exhaustive_script_space": {"n_max": nmax, "cases": total, "complete": False}}
-    agg = {"violations": [], "stats": {"steps": 2 * total, "comparisons": total, "probes": {"exhaustive_script_cases": total}}, "digest": "", "signature": "exhaustive", "nontrivial": True, "run": -1, "nsteps": 2 * total}
+    agg = {"violations": [], "stats": {"steps": 3 * total, "comparisons": 2 * total, "probes": {"exhaustive_script_cases": total}}, "digest": "", "signature": "exhaustive", "nontrivial": True, "run": -1, "nsteps": 2 * total}
     results.append(agg)
     return results, {"exhaustive_script_space": {"n_max": nmax, "cases": total, "complete": True, "what": "all changepoint subsets of 1..n-1 x {mean, median, max} x 3 bound patterns (bounds equal to extreme segment statistics; lower == upper; nothing flagged) on integer series"}}
 
